@@ -267,6 +267,33 @@ theorem C07_direct_new (F : Flags) (P : Params) (cfg : Cfg) (es : List Ev) (g : 
   rw [New.run_eq, New.run_eq]
   exact ⟨fun i h => runWith_direct _ es g i h, runWith_dropDirect _ es g⟩
 
+/-! ## a guard decorator used twice -/
+
+/-- **One guard decorator of each kind per function** (legacy; documented: "only a single `@state_active` / `@time_active`
+decorator can be used per function"): with two of a kind `trigger_init` refuses the function – no trigger occurrence ever starts
+it, direct calls still run; with at most one of each, `runFn` is the guarded trigger loop the other theorems talk about.  (The new
+subsystem has no such check: finding C07-F6.) -/
+theorem C07_legacy_repeated_guard_refused (F : Flags) (P : Params) (cfg : Cfg) (nSA nTA : Nat) (es : List (Nat × Ev)) :
+    ((1 < nSA ∨ 1 < nTA) → (Legacy.runFn F P cfg nSA nTA es).length = es.length ∧
+        ∀ i : Nat, (Legacy.runFn F P cfg nSA nTA es)[i]? = some true ↔ (es[i]?).map (·.2) = some Ev.direct) ∧
+    (nSA ≤ 1 → nTA ≤ 1 → Legacy.runFn F P cfg nSA nTA es = Legacy.runGroups F P cfg es (fun _ => GState.init)) := by
+  refine ⟨fun h => ?_, fun h1 h2 => ?_⟩
+  · have hc : (decide (nSA > 1) || decide (nTA > 1)) = true := by
+      rcases h with h | h <;> simp [h]
+    unfold Legacy.runFn
+    rw [if_pos hc]
+    refine ⟨List.length_map _, fun i => ?_⟩
+    rw [List.getElem?_map]
+    cases hi : es[i]? with
+    | none => simp
+    | some e =>
+      obtain ⟨k, ev⟩ := e
+      cases ev <;> simp
+  · unfold Legacy.runFn
+    have hc : ¬ ((decide (nSA > 1) || decide (nTA > 1)) = true) := by
+      simp; omega
+    rw [if_neg hc]
+
 /-! ## non-vacuity of the hypotheses -/
 
 example : Mono [wOcc 1 1000 .truthy, .direct, wOcc 2 6000 .isFalse, wOcc 3 6000 .truthy] none := by
